@@ -289,11 +289,15 @@ def chr_digit(d):
     return "0123456789"[d]
 
 
+@primitive
 def le16v(b):
+    """value of two little-endian bytes"""
     return b[0] + 256 * b[1]
 
 
+@primitive
 def le32v(b):
+    """value of four little-endian bytes"""
     return b[0] + 256 * b[1] + 65536 * b[2] + 16777216 * b[3]
 
 
@@ -663,3 +667,39 @@ def command_payload(para, hexcode):
 
 def swing_key_spec(swing_on):
     return "FUN_d1" if swing_on else "FUN_d0"
+
+
+# ------------------------------------------------------------------------------------- C10 schedule records
+@primitive
+def days_of_mask(mask, days_cls):
+    """the set of days whose bit is set in mask (empty for 0)"""
+    return set(d for d in days_cls if (mask // DAY_BIT[d.name]) % 2 == 1)
+
+
+def wf_schedules_reply(r, k):
+    """a get-schedules reply holding k whole 16-byte records: 45 header bytes, the records, 4 trailing bytes; every mask is
+    0 (non-recurring) or 2..254"""
+    if len(r) != 49 + 16 * k:
+        return False
+    conds = []
+    for j in range(k):
+        m = r[45 + 16 * j + 2]
+        conds.append(implies(m != 0, m >= 2))
+        conds.append(m <= 254)
+    return all_of(conds)
+
+
+def record_spec(q, days_cls):
+    """16-byte record: id q[0], enabled q[1], day mask q[2] (0 = non-recurring), state q[3], start LE32 q[4:8], end LE32 q[8:12]"""
+    start = local_hhmm_of(le32v(q[4:8]))
+    end = local_hhmm_of(le32v(q[8:12]))
+    return {"schedule_id": str(q[0]), "recurring": q[2] != 0, "days": days_of_mask(q[2], days_cls),
+            "start_time": start, "end_time": end, "duration": duration_spec(start, end)}
+
+
+def get_days_spec(schedule_hex, days_cls):
+    """ScheduleParser.get_days on a 32-character hex record"""
+    mask = unhex(schedule_hex[4:6])[0]
+    if not all_of([implies(mask != 0, mask >= 2), mask <= 254]):
+        raise Reject("ValueError")
+    return days_of_mask(mask, days_cls)
